@@ -120,6 +120,18 @@ def storage_iface(ctx, rr):
             v = x.value
             good = v is None or (isinstance(v, ast.Constant) and v.value is None) or (
                 isinstance(v, ast.BoolOp) and isinstance(v.op, ast.Or) and isinstance(v.values[-1], ast.Constant) and v.values[-1].value is None)
+            if not good and isinstance(v, ast.IfExp):
+                # `data if data else None` / `None if not data else data`
+                t_, b_, o_ = v.test, v.body, v.orelse
+                neg_ = isinstance(t_, ast.UnaryOp) and isinstance(t_.op, ast.Not)
+                if neg_:
+                    t_, b_, o_ = t_.operand, o_, b_
+                good = isinstance(o_, ast.Constant) and o_.value is None and ast.unparse(t_) == ast.unparse(b_)
+            if not good and isinstance(v, ast.Name):
+                # `if not data: return None` ... `return data`
+                from ..guards import guard_facts as _gf
+                facts_ = _gf(ctx, r).facts_at(v) or set()
+                good = any(f[0] == 'T' and f[1] == v.id for f in facts_)
             ok = ok and good
         g = ctx.cfg(r)
         falls_off = any(p.kind != 'stmt' or not isinstance(p.ast, ast.Return) for p, _ in g.exit.pred)
